@@ -4,7 +4,7 @@
    that the writer's mechanism satisfies the abstract properties (C01 / C06 / C07), and prints
    every complete layout as a behaviour to be replayed on the real writer and readers. *)
 EXTENDS BigWigSpec, Json
-CONSTANTS MinItems, NC, L, MaxItems, MaxPerChrom, Vals, IPS, ZoomLists
+CONSTANTS AnyOrder, MinItems, NC, L, MaxItems, MaxPerChrom, Vals, IPS, ZoomLists
 VARIABLES input, cur, pos, nIn, done, ips, zl
 vars == <<input, cur, pos, nIn, done, ips, zl>>
 ZL == CASE ZoomLists = "a" -> {<<>>, <<2>>, <<3>>, <<2, 4>>}
@@ -23,11 +23,11 @@ NextChrom(c) ==
   /\ cur' = c /\ pos' = 0 /\ nIn' = 0 /\ UNCHANGED <<input, done, ips, zl>>
 Finish == /\ ~done /\ cur > 0 /\ nIn > 0 /\ Len(input) >= MinItems /\ done' = TRUE /\ UNCHANGED <<input, cur, pos, nIn, ips, zl>>
 Next == \/ \E s \in pos..L : \E e \in s..L : \E v \in Vals : AddVal(s, e, v)
-        \/ \E c \in (cur + 1)..NC : NextChrom(c)
+        \/ \E c \in (IF AnyOrder THEN (1..NC) \ {input[i][1] : i \in 1..Len(input)} ELSE (cur + 1)..NC) : NextChrom(c)
         \/ Finish
 
 \* mechanism => abstract, at every complete input
 MechRoundTrip == done => Flatten(Sections(input, ips)) = input
 MechZoom == done => ZoomsOKW(input, Sizes, ModelZooms(input, zl))
-Emit == done => PrintT(<<"REPLAY", ToJson([items |-> input, ips |-> ips, zooms |-> zl, NC |-> NC, L |-> L, mz |-> ModelZooms(input, zl)])>>)
+Emit == done => PrintT(<<"REPLAY", ToJson([items |-> input, ips |-> ips, zooms |-> zl, NC |-> NC, L |-> L, sort |-> IF AnyOrder THEN "start" ELSE "all", mz |-> ModelZooms(input, zl)])>>)
 =============================================================================
